@@ -6,4 +6,5 @@ pub mod poseidon_consts;
 pub mod props;
 pub mod refmodel;
 pub mod sat;
+pub mod stk;
 pub mod tamper;
